@@ -354,7 +354,9 @@ def run(chk):
                     if res["stop"] == "fuel":
                         chk.count("struct_run_out_of_steps"); continue      # a long run, not a wrong one: not judged
                     chk.count("struct_executions")
-                    if res["stop"] == "done":
+                    if res["stop"] == "done" and res.get("SP") != 255:
+                        got = {"stop": "stack pointer $%02X" % res.get("SP")}
+                    elif res["stop"] == "done":
                         got = {"X": res["X"], "Y": res["Y"]}
                         off = 0
                         for n in objs:
@@ -457,6 +459,10 @@ def classify(src, kind):
     for line in src.splitlines():
         if re.search(r"\[(v\d|i\d|a\d\[)", line) and re.search(r"\bY\b", line) and kind == "wrong-value":
             return "y-used-with-memory-subscript"
+    # known finding: two calls in one expression (the value the first call left in A is not saved across the second)
+    for line in src.splitlines():
+        if kind == "wrong-value" and re.search(r"\b[a-z]\w*\([^;]*\)\s*[-+&|^]\s*[a-z]\w*\(", line):
+            return "two-calls-in-one-expression"
     # known finding: an addition / subtraction on 16-bit operands one operand of which is a conditional whose
     # condition compares (the comparison is evaluated again between the two byte passes and overwrites the carry)
     for line in src.splitlines():
